@@ -191,7 +191,7 @@ fn exh_variants(s: &str) -> Vec<(&'static str, String)> {
     v.push((
         "double-indent",
         map_lines(s, |l| {
-            let n = l.bytes().take_while(|b| *b == b' ' || *b == b'\t').count();
+            let n = l.bytes().take_while(|b| *b == b' ' || *b == b'\t' || *b == b'\r').count();
             format!("{}{}", &l[..n], l)
         }),
     ));
